@@ -810,7 +810,7 @@ class LfSystem:
         elif op[0] == "aln":
             lf.set_alignment(alns[op[1]])
         elif op[0] == "optimise":
-            lf.optimise(local=True, max_evaluations=3, limit_action="ignore", show_progress=False)
+            lf.optimise(local=True, max_evaluations=6, limit_action="ignore", show_progress=False)
         else:
             raise ValueError(op)
 
